@@ -221,7 +221,7 @@ impl Driver for C01 {
             if m.has_logic() {
                 out.tag("model:logic");
             }
-            if case == 0 && out.unit < 3 {
+            if out.report.samples.is_empty() && out.unit < 16 {
                 out.sample(json!({"model": model_detail(m, lm), "points": pts.len(), "first_point": pts.first().map(|p| point_json(m, p))}));
             }
         }
@@ -552,7 +552,7 @@ impl Driver for C02 {
             if compared > 0 && (m.has_piecewise() || m.has_logic()) {
                 out.nontrivial(hash_str(&format!("{:?}", m)));
             }
-            if case == 0 && out.unit < 3 {
+            if out.report.samples.is_empty() && out.unit < 16 {
                 out.sample(json!({"model": model_detail(m, lm)}));
             }
         }
